@@ -20,6 +20,7 @@ from ..astutil import (
 from ..cfg import no_exc
 from ..report import Registry, chain, sub
 from ._helpers_rob_i import nf
+from ._helpers_str2_w import KeyFlow, describe_key
 from ._helpers_rules_c import PathSense, both, call_nodes, cut_edges, kw_or_pos, loc_of, must_pass, own_calls, test_edges
 
 R = Registry(
@@ -37,7 +38,11 @@ R = Registry(
         "is recorded as the object's identity token and returned; connection_callable / get_bind pass that id on "
         "and return the shard table's entry for it; (R5) ShardedSession.__init__ registers the fan-out hook on "
         "every path; (R6) _identity_lookup searches only the known token, else every token the identity chooser "
-        "yields, returning the first hit."
+        "yields, returning the first hit; a call that gives no token cannot return before the identity chooser was "
+        "asked; (R7) every identity lookup in orm/ + ext/ made on behalf of a known identity carries its token: a "
+        "token-accepting lookup that is given component [1] of an identity key is given component [2] of the same "
+        "key, and a function that was itself given an identity_token hands that token to every token-accepting "
+        "lookup it calls."
     ),
     not_decided=(
         "which shard ids the user-supplied choosers return; the rows in each shard database; Result.merge() "
@@ -855,11 +860,13 @@ def r5(ctx):
 
 
 # ---------------------------------------------------------------------- C53-R6
-@R.rule("C53-R6", floor=3, template="T-PATH",
+@R.rule("C53-R6", floor=4, template="T-PATH",
         desc="_identity_lookup: a known identity token is the only one searched; otherwise each token yielded by the identity "
-             "chooser is looked up under that token and the first hit is returned")
+             "chooser is looked up under that token and the first hit is returned; when the caller gives no token no path "
+             "returns before the identity chooser was asked")
 def r6(ctx):
-    f = ctx.func(f"{SESSION}._identity_lookup")
+    # a snapshot of the parameter (`token = identity_token`) is resolved before the branch atoms are read
+    f = nf(ctx, ctx.func(f"{SESSION}._identity_lookup"), inline=False, alias="dotted")
     g = ctx.cfg(f)
     ctx.require("identity_token" in f.params, "_identity_lookup lost its identity_token parameter")
     chooser_loops = [n for n in g.nodes if n.kind == "for" and _iter_call_name(f.node, n.stmt) == "self.identity_chooser"]
@@ -921,6 +928,161 @@ def r6(ctx):
     ctx.check(good, f.key + ":first-hit-returned",
               f"an object found under one of the identity chooser's tokens (`{r_}` is not None) is not returned",
               f"{r_} is not None -> return {r_}", f.loc, g.describe_path(w) if w else None)
+    # (d) no token given -> the identity chooser decides: path-sensitive (the fact `identity_token is None` holds at entry and
+    # is dropped when the parameter is rebound), so a token invented on the way (parent's shard, a default shard ...) that
+    # then takes the known-token branch is a path to `return` that never asked the chooser
+    asks = [n.id for n in g.nodes if any(call_name(c) == "self.identity_chooser" for c in own_calls(n))]
+    ctx.require(asks, "no self.identity_chooser(...) call in _identity_lookup")
+    w = PathSense(g).witness([g.entry], [g.exit], avoid=asks, edge_ok=no_exc,
+                             init_facts=[("identity_token is None", True), ("identity_token", False)])
+    ctx.check(w is None, f.key + ":unknown-token-asks-chooser",
+              "called without an identity token, _identity_lookup can return without consulting the identity chooser (a token is "
+              "taken from somewhere else and searched as if the caller had given it): a many-to-one lazy load whose target lives "
+              "in the shard the chooser names finds the object with the same primary key of another shard in the identity map",
+              "identity_token is None at entry -> every return is preceded by self.identity_chooser(...)", f.loc, w)
+
+
+# ---------------------------------------------------------------------- C53-R7
+TOKEN = "identity_token"
+# receivers on which an ambiguous method name (one that builtin containers also have: `get`) is a Session-like lookup
+SESSION_LIKE_RECEIVERS = ("session", "sess", "_proxied", "sync_session")
+R7_SCOPE = ("orm/", "ext/")
+
+
+def _token_acceptors(ctx) -> Dict[str, list]:
+    """{function name: [FuncInfo]}: functions of orm/ + ext/ that have a parameter named identity_token"""
+    out: Dict[str, list] = {}
+    for m in ctx.index.all_modules():
+        if not m.relpath.startswith(R7_SCOPE) or TOKEN not in m.source:
+            continue
+        for f in ctx.index.all_functions(m):
+            if TOKEN in f.params and not f.type_only and not f.is_overload:
+                out.setdefault(f.name, []).append(f)
+    return out
+
+
+def _callee_last(c: ast.Call) -> Optional[str]:
+    return c.func.attr if isinstance(c.func, ast.Attribute) else (c.func.id if isinstance(c.func, ast.Name) else None)
+
+
+def _accepts_token(ctx, c: ast.Call, acc, F) -> bool:
+    nm = _callee_last(c)
+    if nm not in acc:
+        return False
+    if any(hasattr(t, nm) for t in (dict, list, set, str)):
+        recv = dotted(c.func.value) if isinstance(c.func, ast.Attribute) else None
+        if recv in ("self", "super()") and F.cls is not None:
+            bases = [b for b in F.cls.bases if b is not None] if recv == "super()" else [F.cls]
+            for b in bases:
+                t = ctx.index.resolve_method(b, nm)
+                if t is not None:
+                    return TOKEN in t.params
+            return False
+        return recv is not None and recv.rsplit(".", 1)[-1] in SESSION_LIKE_RECEIVERS
+    return True
+
+
+def _token_argument(c: ast.Call, acc):
+    """(expression passed as identity token | None, True when the call forwards **kw that may carry it)"""
+    for k in c.keywords:
+        if k.arg == TOKEN:
+            return k.value, False
+    star = any(k.arg is None for k in c.keywords) or any(isinstance(a, ast.Starred) for a in c.args)
+    sigs = {tuple(p for p in f.params if p not in ("self", "cls")) for f in acc.get(_callee_last(c), [])}
+    if len(sigs) == 1:
+        sig = next(iter(sigs))
+        i = sig.index(TOKEN)
+        kwonly = set()
+        for f in acc[_callee_last(c)]:
+            kwonly |= {a.arg for a in f.node.args.kwonlyargs}
+        if TOKEN not in kwonly and i < len(c.args) and not any(isinstance(a, ast.Starred) for a in c.args[: i + 1]):
+            return c.args[i], False
+    return None, star
+
+
+@R.rule("C53-R7", floor=18, template="T-FLOW/T-SIBLING",
+        desc="identity lookups made on behalf of a known identity carry its token (all call sites of token-accepting lookups in "
+             "orm/ + ext/): a lookup that is given component [1] of an identity key gets component [2] of the same key as its "
+             "identity_token; a function that was given an identity_token hands it to every token-accepting lookup it calls "
+             "(except where that parameter is known to be None)")
+def r7(ctx):
+    acc = _token_acceptors(ctx)
+    ctx.require(len(acc) >= 6, f"only {sorted(acc)} accept an identity_token")
+    n_key = n_fwd = 0
+    for m in ctx.index.all_modules():
+        if not m.relpath.startswith(R7_SCOPE):
+            continue
+        if not any(nm + "(" in m.source for nm in acc):
+            continue
+        for f0 in sorted(ctx.index.all_functions(m), key=lambda x: x.key):
+            if f0.type_only or f0.is_overload:
+                continue
+            if not any(_callee_last(c) in acc for c in calls_in(f0.node)):
+                continue
+            # helper-inlined, alias-resolved form: `pk, tok = self._split(key)` / `k = state.key` are read where they are used
+            F = nf(ctx, f0, keep=set(acc), inline=True, alias="dotted")      # the lookups themselves are never inlined
+            sites = [c for c in calls_in(F.node) if _accepts_token(ctx, c, acc, f0)]
+            if not sites:
+                continue
+            g = ctx.cfg(F)
+            kf = KeyFlow(g, F.node)
+            seen_keys: Dict[str, int] = {}
+            for c in sorted(sites, key=lambda x: (x.lineno, x.col_offset)):
+                at = kf.node_of(c)
+                if at is None:
+                    continue        # inside a nested function / lambda: not on this CFG
+                tok, star = _token_argument(c, acc)
+                others = [a for a in c.args if a is not tok] + [k.value for k in c.keywords if k.arg not in (TOKEN, None)]
+                pk_keys = []
+                for a in others:
+                    for K, i in kf.comps(a, at):
+                        if i == 1 and K not in pk_keys:
+                            pk_keys.append(K)
+                callee = _callee_last(c)
+                if pk_keys:
+                    # (i) the primary key comes out of an identity key: the token must come out of the same key
+                    base = f"{f0.key}:{callee}:token-of-the-same-key"
+                    seen_keys[base] = seen_keys.get(base, 0) + 1
+                    key = base + (f"#{seen_keys[base]}" if seen_keys[base] > 1 else "")
+                    n_key += 1
+                    ctx.functions_analysed.add(f0.key)
+                    got = kf.comps(tok, at) if tok is not None else set()
+                    missing = [K for K in pk_keys if (K, 2) not in got]
+                    if tok is None and star:
+                        ctx.error(f"{f0.key}: `{unparse(c.func)}` receives the primary key of an identity key and **kw; cannot see the token")
+                    what = ("no identity_token at all" if tok is None else
+                            f"`{unparse(tok)}`, which is not component [2] of that key"
+                            + (" (it is component " + ", ".join(sorted({str(i) for _, i in got})) + " of a key)" if got else ""))
+                    ctx.check(not missing, key,
+                              f"`{unparse(c.func)}(...)` looks up the primary key taken from identity key `{describe_key(missing[0]) if missing else ''}` "
+                              f"(component [1]) but is given {what}: with a ShardedSession the lookup is made under (class, pk, None) -- the "
+                              "identity chooser / another shard's object with the same primary key answers, e.g. session.merge() of a detached "
+                              "object from shard 'b' returns and overwrites the object of shard 'a', and the UPDATE goes to shard 'a'",
+                              f"pk = K[1], identity_token = K[2] of the same key ({describe_key(pk_keys[0])})", f"{f0.module.path}:{c.lineno}")
+                    continue
+                if TOKEN in f0.params:
+                    # (ii) the function was itself given a token: it is handed on
+                    base = f"{f0.key}:{callee}:own-token-forwarded"
+                    seen_keys[base] = seen_keys.get(base, 0) + 1
+                    key = base + (f"#{seen_keys[base]}" if seen_keys[base] > 1 else "")
+                    n_fwd += 1
+                    ctx.functions_analysed.add(f0.key)
+                    atoms = set(guard_atoms(g.edge_guards(at)))
+                    if (f"{TOKEN} is None", True) in atoms:
+                        ctx.ok(key, f"runs only when no token was given (`{TOKEN} is None`)")
+                        continue
+                    if tok is None and star:
+                        ctx.ok(key, "token travels in the forwarded **kw")
+                        continue
+                    origins = kf.ident(tok, at) if tok is not None else frozenset()
+                    ctx.check(("param", TOKEN) in origins, key,
+                              f"`{f0.qualname}` was given an identity_token but calls `{unparse(c.func)}(...)` "
+                              + ("without one" if tok is None else f"with `{unparse(tok)}`, which does not come from that parameter")
+                              + ": the lookup / load further down uses (class, pk, None) -- session.get(X, pk, identity_token='b') can return "
+                                "the object of shard 'a' that has the same primary key, or load the row from the wrong shard",
+                              f"identity_token={unparse(tok) if tok is not None else ''} <- parameter", f"{f0.module.path}:{c.lineno}")
+    ctx.require(n_key >= 2, f"only {n_key} lookup(s) in orm/ + ext/ receive component [1] of an identity key (Session._merge / loading._load_on_ident expected)")
+    ctx.require(n_fwd >= 12, f"only {n_fwd} token-forwarding call(s) found in orm/ + ext/")
 
 
 # ---------------------------------------------------------------------- self-test battery
@@ -1228,3 +1390,111 @@ R.mutant("explicit-shard-helper-ignores-identity-token", HS, chain(
         "    shard_id = _explicit_shard_id(orm_context)\n"),
     sub("def execute_and_instances(\n",
         "def _explicit_shard_id(orm_context):\n    for orm_opt in orm_context._non_compile_orm_options:\n        if isinstance(orm_opt, set_shard_id):\n            return orm_opt.shard_id\n    if \"_sa_shard_id\" in orm_context.execution_options:\n        return orm_context.execution_options[\"_sa_shard_id\"]\n    elif \"shard_id\" in orm_context.bind_arguments:\n        return orm_context.bind_arguments[\"shard_id\"]\n    return None\n\n\ndef execute_and_instances(\n")), "C53-R3")
+
+# ---- round 2 (str2-w): seeds C53_1 / C53_2 and the families they belong to (C53-R7, C53-R6 :unknown-token-asks-chooser)
+SESS = "orm/session.py"
+_MERGE_GET = ("                merged = self.get(\n"
+              "                    mapper.class_,\n"
+              "                    key[1],\n"
+              "                    identity_token=key[2],\n"
+              "                    options=options,\n"
+              "                )\n")
+_LOAD_ON_IDENT = ("    if key is not None:\n"
+                  "        ident = key[1]\n"
+                  "        identity_token = key[2]\n"
+                  "    else:\n"
+                  "        ident = identity_token = None\n")
+# seed C53_1: the merge target is looked up by primary key only
+R.mutant("merge-get-drops-key-token", SESS,
+         sub(_MERGE_GET, "                merged = self.get(mapper.class_, key[1], options=options)\n"), "C53-R7")
+# same family: token taken from a different component / from nowhere at the other key-unpacking site
+R.mutant("load-on-ident-token-from-wrong-component", "orm/loading.py",
+         sub("        ident = key[1]\n        identity_token = key[2]\n", "        ident = key[1]\n        identity_token = key[0]\n"), "C53-R7")
+R.mutant("load-on-ident-token-only-for-refresh", "orm/loading.py",
+         sub("        only_load_props=only_load_props,\n        identity_token=identity_token,\n        no_autoflush=no_autoflush,\n",
+             "        only_load_props=only_load_props,\n        identity_token=refresh_state.identity_token if refresh_state else None,\n        no_autoflush=no_autoflush,\n"),
+         "C53-R7")
+# forwarders: a function that was given a token does not hand it on
+R.mutant("session-get-impl-lookup-without-token", SESS,
+         sub("                primary_key_identity,\n                identity_token=identity_token,\n                execution_options=execution_options,\n",
+             "                primary_key_identity,\n                execution_options=execution_options,\n"), "C53-R7")
+R.mutant("session-get-one-drops-token", SESS,
+         sub("            with_for_update=with_for_update,\n            identity_token=identity_token,\n            execution_options=execution_options,\n"
+             "            bind_arguments=bind_arguments,\n        )\n\n        if instance is None:",
+             "            with_for_update=with_for_update,\n            execution_options=execution_options,\n"
+             "            bind_arguments=bind_arguments,\n        )\n\n        if instance is None:"), "C53-R7")
+R.mutant("query-get-impl-passes-none-token", "orm/query.py",
+         sub("            identity_token=identity_token,\n", "            identity_token=None,\n"), "C53-R7")
+# benign refactors of the same sites
+R.mutant("benign-merge-get-components-in-locals", SESS,
+         sub(_MERGE_GET, "                merge_pk = key[1]\n"
+                         "                merge_token = key[2]\n"
+                         "                merged = self.get(\n"
+                         "                    mapper.class_,\n"
+                         "                    merge_pk,\n"
+                         "                    options=options,\n"
+                         "                    identity_token=merge_token,\n"
+                         "                )\n"), None)
+R.mutant("benign-merge-get-key-unpacked", SESS,
+         sub(_MERGE_GET, "                _, merge_pk, merge_token = key\n"
+                         "                merged = self.get(\n"
+                         "                    mapper.class_, merge_pk, identity_token=merge_token, options=options\n"
+                         "                )\n"), None)
+R.mutant("benign-load-on-ident-unpack-and-inverted", "orm/loading.py",
+         sub(_LOAD_ON_IDENT, "    if key is None:\n"
+                             "        ident = identity_token = None\n"
+                             "    else:\n"
+                             "        _cls, ident, identity_token = key\n"), None)
+R.mutant("benign-load-on-ident-conditional-expressions", "orm/loading.py",
+         sub(_LOAD_ON_IDENT, "    ident = key[1] if key is not None else None\n"
+                             "    identity_token = key[2] if key is not None else None\n"), None)
+R.mutant("benign-load-on-ident-split-helper", "orm/loading.py", chain(
+    sub(_LOAD_ON_IDENT, "    ident, identity_token = _split_identity_key(key)\n"),
+    sub("def _load_on_ident(\n", "def _split_identity_key(key):\n"
+                                 "    if key is None:\n"
+                                 "        return None, None\n"
+                                 "    return key[1], key[2]\n\n\n"
+                                 "def _load_on_ident(\n")), None)
+R.mutant("benign-session-get-token-through-local", SESS,
+         sub("        return self._get_impl(\n            entity,\n            ident,\n            loading._load_on_pk_identity,\n"
+             "            options=options,\n            populate_existing=populate_existing,\n            with_for_update=with_for_update,\n"
+             "            identity_token=identity_token,\n",
+             "        token = identity_token\n"
+             "        return self._get_impl(\n            entity,\n            ident,\n            loading._load_on_pk_identity,\n"
+             "            options=options,\n            populate_existing=populate_existing,\n            with_for_update=with_for_update,\n"
+             "            identity_token=token,\n"), None)
+
+_IDL_KNOWN = ("        if identity_token is not None:\n"
+              "            obj = super()._identity_lookup(\n"
+              "                mapper,\n"
+              "                primary_key_identity,\n"
+              "                identity_token=identity_token,\n"
+              "                **kw,\n"
+              "            )\n"
+              "\n"
+              "            return obj\n"
+              "        else:\n")
+# seed C53_2: a relationship load borrows the parent's token and never asks the identity chooser
+R.mutant("identity-lookup-borrows-parent-token", HS,
+         sub(_IDL_KNOWN, "        if identity_token is None and lazy_loaded_from is not None:\n"
+                         "            identity_token = lazy_loaded_from.identity_token\n\n" + _IDL_KNOWN), "C53-R6")
+# same class: a default shard / the single configured shard is assumed instead of asking the chooser
+R.mutant("identity-lookup-defaults-to-first-shard", HS,
+         sub(_IDL_KNOWN, "        if identity_token is None and len(self.__shards) == 1:\n"
+                         "            identity_token = next(iter(self.__shards))\n\n" + _IDL_KNOWN), "C53-R6")
+R.mutant("identity-lookup-token-from-execution-options", HS,
+         sub(_IDL_KNOWN, "        identity_token = identity_token or execution_options.get(\"_sa_shard_id\")\n" + _IDL_KNOWN), "C53-R6")
+# benign: the parameter is snapshotted / the branches are inverted with an early return / the lookup result is returned directly
+R.mutant("benign-identity-lookup-token-alias-early-return", HS,
+         sub(_IDL_KNOWN, "        given_token = identity_token\n"
+                         "        if given_token is not None:\n"
+                         "            return super()._identity_lookup(\n"
+                         "                mapper,\n"
+                         "                primary_key_identity,\n"
+                         "                identity_token=given_token,\n"
+                         "                **kw,\n"
+                         "            )\n"
+                         "        if True:\n"), None)
+R.mutant("benign-identity-lookup-none-rebound-to-none", HS,
+         sub(_IDL_KNOWN, "        if identity_token is None:\n"
+                         "            identity_token = None\n\n" + _IDL_KNOWN), None)
